@@ -24,7 +24,11 @@ FRESH = ["ZZ_new_public", "_zz_new_private", "payload", "identity", "ismsm", "DF
 
 def snapshot(msg):
     return (
-        [(k, repr(v)) for k, v in vars(msg).items()],
+        # all instance attributes, except private mutable containers: an augmented assignment such as
+        # msg._satmap |= {...} mutates the container before __setattr__ is even called; the property
+        # speaks of payload, identity, attribute values, string form and serialised bytes
+        [(k, repr(v)) for k, v in vars(msg).items()
+         if not (k.startswith("_") and isinstance(v, (list, dict, set, bytearray)))],
         msg.payload,
         msg.identity,
         str(msg),
@@ -158,10 +162,15 @@ def judge(case, reuse=False):
             except AttributeError:
                 continue
             delta = b"\x00\x01" if isinstance(cur, (bytes, bytearray)) else "x" if isinstance(cur, str) \
-                else 1 if isinstance(cur, (int, float)) and not isinstance(cur, bool) else None
+                else 1 if isinstance(cur, (int, float)) and not isinstance(cur, bool) \
+                else ["x"] if isinstance(cur, list) else {"x": 1} if isinstance(cur, dict) \
+                else {"x"} if isinstance(cur, set) else ("x",) if isinstance(cur, tuple) else None
             if delta is None:
                 continue
-            cur += delta
+            if isinstance(cur, (dict, set)):
+                cur |= delta  # in place for mutable containers, as an augmented assignment does
+            else:
+                cur += delta
             val = cur
         try:
             setattr(msg, name, val)
